@@ -102,7 +102,11 @@ def make_coll(case, which):
         d['CDR3A'] = [a for a, b in c]
     if 'B' in cols:
         d['CDR3B'] = [b for a, b in c]
-    df = pd.DataFrame(d, columns=list(d))
+    order = list(d)
+    if case.get('colperm') is not None:
+        # the metric is chosen from the columns PRESENT, not from their order: beta left of alpha, metadata in between
+        order = order[::-1] if case['colperm'] == 'reverse' else order[1:] + order[:1]
+    df = pd.DataFrame(d, columns=order)
     idx = case.get('index_' + which)
     if idx is not None:
         df.index = idx
@@ -357,6 +361,8 @@ def gen_tcr_case(rng, big=False):
     b = rand_strings(rng, n, 'ACS', 5)
     form = rng.random()
     case = dict(kind='tcr', xs=[list(p) for p in zip(a, b)], ys=None, cols=rng.choice(['A', 'B', 'AB', 'AB']))
+    if rng.random() < 0.4:
+        case['colperm'] = rng.choice(['reverse', 'rotate'])
     if form < 0.2:
         case['kind'], case['cols'] = 'tuple', 'AB'
     if rng.random() < 0.4:
